@@ -115,6 +115,7 @@ class Check(object):
         script = enc.script(list(assumptions), [neg])
         smp = sample or dict(obligation=name, lhs=tm.show(lib, 3), rhs=tm.show(ref, 3), vars=enc.nvars, info=dict(enc.info))
         ob = self.add(Ob(name, 'prop', script, 'unsat', smp, replay, key, fns, timeout, family=family))
+        ob.assumed = list(assumptions)      # read by the replays: a parameter assumed only non-zero is also tried with the other sign
         if witnesses:
             # assumption witness: assumptions + definitions alone must be satisfiable
             enc2 = smt.Encoder()
